@@ -37,6 +37,8 @@ BackList(bs) ==
     (* rust blocks separated by a block of another backend: all of them count, in source order *)
     [] bs = "split"    -> <<Backend("rust", Pro(1), Epi(1)), Backend("cpp", "pub const CPP_4: u32 = 5;", NoText),
                             Backend("rust", Pro(2), Epi(2))>>
+    (* a prologue that is not Rust: the build fails (every time) when the output cannot be pretty-printed *)
+    [] bs = "badpro"   -> <<Backend("rust", "this is not rust (", NoText)>>
     [] bs = "comment"  -> <<Backend("rust", ProComment, Epi(1))>>
     [] OTHER           -> <<Backend("cpp", "pub const CPP_3: u32 = 4;", NoText)>>
 
